@@ -1,7 +1,7 @@
 (* C08 at source level: the statements of props/C08.v about the two loop bodies TRANSLATED FROM
    src/tbc_header/{encrypt,decrypt}.rs on this run, with the HMAC-derived 20-byte key.
    Only statements; every proof is `exact` of a lemma from proofs/steps/. *)
-From WS Require Import lib.Bytes lib.Res lib.StepLoop Consts Steps spec.HeaderCipher proofs.HeaderCipher proofs.Tbc proofs.steps.Tbc.
+From WS Require Import lib.Bytes lib.Res lib.StepLoop Consts Steps spec.HeaderCipher proofs.HeaderCipher proofs.Tbc proofs.steps.Tbc lib.Hmac proofs.steps.Ctors.
 Local Open Scope N_scope.
 
 Theorem C08_source_enc_calls : forall K chunks,
@@ -17,3 +17,18 @@ Proof. exact tbc_source_dec_calls. Qed.
 
 Print Assumptions C08_source_enc_calls.
 Print Assumptions C08_source_dec_calls.
+
+(* the key derivation as translated from the two `new` bodies (HMAC-SHA1 object keyed with the seed
+   literal in that body, updated with the session key, finalized, converted to [u8; 20]): both halves
+   start at (index, previous) = (0, 0) with the SAME key HMAC-SHA1(seed, K), for every session key, and
+   the conversion never panics; the combined object holds exactly these two halves *)
+Theorem C08_source_key : forall K,
+  tr_tbc_encrypter_new K = Some (hmac_sha1 tbc_seed K, 0, 0) /\
+  tr_tbc_decrypter_new K = Some (hmac_sha1 tbc_seed K, 0, 0) /\
+  tr_tbc_crypto_new K = Some ((hmac_sha1 tbc_seed K, 0, 0), (hmac_sha1 tbc_seed K, 0, 0)).
+Proof.
+  intros K. rewrite proofs.steps.Ctors.tbc_crypto_new_translated, proofs.steps.Ctors.tbc_encrypter_new_translated,
+    proofs.steps.Ctors.tbc_decrypter_new_translated.
+  unfold model.Tbc.crypto_new. destruct (new_spec K) as [-> ->]. repeat split.
+Qed.
+Print Assumptions C08_source_key.
